@@ -30,6 +30,10 @@ func (e *Enc) call(fr *Frame, st *State, cc *ssa.CallCommon, ins ssa.Instruction
 	ci := calleeInfo{}
 	if cc.IsInvoke() {
 		recv := e.val(fr, cc.Value)
+		if recv.T != nil {
+			// a method call through a nil interface value panics
+			e.safety(fr, st, "nil-interface-call", pos, e.C.Ne(e.ifaceType(recv.T), e.bv64(0)))
+		}
 		args = append(args, recv)
 		argTypes = append(argTypes, cc.Value.Type())
 		ci.mode = "invoke"
@@ -56,6 +60,12 @@ func (e *Enc) call(fr *Frame, st *State, cc *ssa.CallCommon, ins ssa.Instruction
 			} else {
 				ci.mode = "dynamic"
 				ci.name = "fntype:" + typeStr(cc.Value.Type())
+				// a package-level function variable (host callback registered by the embedder) is keyed by its name
+				if ld, ok := cc.Value.(*ssa.UnOp); ok && ld.Op == token.MUL {
+					if g, ok := ld.X.(*ssa.Global); ok {
+						ci.name = "funcvar:" + qual(g.Pkg.Pkg) + "." + g.Name()
+					}
+				}
 				ci.sig = cc.Value.Type().Underlying().(*types.Signature)
 				args = append(args, fv)
 				argTypes = append(argTypes, cc.Value.Type())
@@ -294,6 +304,23 @@ func (e *Enc) applySpec(fr *Frame, st *State, spec *FuncSpec, ci calleeInfo, arg
 		}
 		results = append(results, &Val{T: t})
 	}
+	if ci.mode == "invoke" || ci.mode == "dynamic" || spec.Trusted {
+		// call log for replay: which host calls happen on the counterexample path, with which arguments and results
+		e.callSeq++
+		tag := fmt.Sprintf("call%02d:%s", e.callSeq, strings.TrimPrefix(strings.TrimPrefix(spec.Name, "iface:"), "fntype:"))
+		e.addWitness(tag+":reached", st.Reach)
+		for i, a := range args {
+			if i == 0 && (ci.mode == "invoke" || ci.mode == "dynamic") {
+				continue
+			}
+			if a.T != nil && a.T.Sort.Kind != smt.KArray {
+				e.addWitness(fmt.Sprintf("%s:arg%d", tag, i), a.T)
+			}
+		}
+		for i, r := range results {
+			e.addWitness(fmt.Sprintf("%s:res%d", tag, i), r.T)
+		}
+	}
 	if spec.Kind == "mutating" {
 		nv := c.App(spec.Name+"!state", smt.BV(64), ufArgs...)
 		e.setGhost(st, "statever", nv)
@@ -387,6 +414,14 @@ func (e *Enc) initLocalGhosts(fr *Frame, st *State) {
 		t, _, err := env.EvalTerm(g.Init)
 		if err != nil {
 			unsupported("ghost %s init: %v", g.Name, err)
+		}
+		if t == nil {
+			// nil: the zero value of the ghost's sort
+			if g.Sort == smt.Bool {
+				t = e.C.False()
+			} else {
+				t = e.C.LitU(0, g.Sort.W)
+			}
 		}
 		if t.Sort != g.Sort {
 			if t.Sort.Kind == smt.KBV && g.Sort.Kind == smt.KBV {
@@ -608,7 +643,7 @@ func (e *Enc) copyElems(st, src *State, elemT types.Type, dObj, dOff, sObj, sOff
 		h := e.heap(st, hn, hs)
 		sreg := e.regionOf(src, hn, hs, sObj)
 		dreg := c.Select(h, dObj)
-		if n.IsLit() && n.Val.IsUint64() && n.Val.Uint64() <= 8 {
+		if n.IsLit() && n.Val.IsUint64() && n.Val.Uint64() <= 32 {
 			k := int(n.Val.Uint64())
 			nr := dreg
 			for i := 0; i < k; i++ {
